@@ -200,6 +200,9 @@ func (c *Checker) plans() []runPlan {
 		for i, e := range validEnvs {
 			ps = append(ps, runPlan{Build: BuildCfg{Corpus: corp, Toolchain: tc}, Env: e, Runs: 1, Label: fmt.Sprintf("env%d", i)})
 		}
+		// race build: a legacy control that touches codec state while other tasks use the codec shows up as a race
+		// with a legacy entry point on one of the two stacks
+		ps = append(ps, runPlan{Build: BuildCfg{Corpus: corp, Race: true}, Env: validEnvs[2], Runs: 2, Label: "race+env2"})
 		return ps
 	case "C06":
 		return []runPlan{
